@@ -11,6 +11,9 @@ Model/HostPool.lean (so every macro run IS an event list of the model and the th
     R c    the holder of connection c calls ReleaseConn     C c   … CloseConn (release c / close c)
     S a k  the server answers the request of actor a: k=0 keep-alive (→ release), k=1 Connection: close (→ close),
            k=2 a body larger than MaxResponseBodySize (→ close), k=3 cut inside the body (→ close); [ 'S', a*4+k ]
+    E c k  the next SetWriteDeadline (k=0) / SetReadDeadline (k=1) call on connection c fails; [ 'E', c*2+k ]: the
+           request that gets connection c next ends in RoundTrip's error exit for that call (acquire …, close c;
+           result err) — for the pool both exits are the same CloseConn
     T      virtual time passes the short timeout: every parked short waiter takes its timer branch
            (waiterTimeout, cancel)
     K      virtual time passes MaxIdleConnDuration: T, then the cleaner closes every idle connection
@@ -53,6 +56,7 @@ structure HpD where
   rets : List (Nat × String)
   wtab : List (Nat × Nat)      -- waiter index → actor (kept after the actor returned: stale queue entries)
   closing : List Nat := []     -- snapshot of a running CloseIdleConnections: connections it still has to close
+  faults : List Nat := []      -- connections whose next Set*Deadline call fails
 
 def hpSetActor (d : HpD) (a : Nat) (st : HpASt) : HpD :=
   { d with actors := match d.actors[a]? with
@@ -82,7 +86,15 @@ def hpStep (d : HpD) (e : Event) : Option HpD :=
 def hpGot (d : HpD) (a c : Nat) : HpD :=
   let d1 := hpSetActor d a (.holds c)
   match d.actors[a]? with
-  | some x => if x.isReq then d1 else hpRet d1 a ("c" ++ toString c)
+  | some x =>
+    if x.isReq then
+      if d.faults.contains c then
+        -- RoundTrip fails at SetWriteDeadline / SetReadDeadline on this connection: CloseConn, the call returns the error
+        match hpStep d1 (.close c) with
+        | some d2 => hpRet (hpSetActor { d2 with faults := d2.faults.erase c } a .fin) a "err"
+        | none => d1
+      else d1
+    else hpRet d1 a ("c" ++ toString c)
   | none => d1
 
 def hpSettleOnce (d : HpD) : Option (Option HpD) :=
@@ -187,6 +199,7 @@ def hpOp (d : HpD) (code : Char) (n : Nat) : Option HpD :=
       (hpStep d (if k == 0 then .release c else .close c)).map fun d1 =>
         hpRet (hpSetActor d1 a .fin) a (if k == 2 then "toolarge" else if k == 3 then "err" else "ok")
     | _ => none
+  | 'E' => some { d with faults := (n / 2) :: d.faults }
   | 'T' => hpTimeouts d
   | 'K' => (hpTimeouts d).bind fun d1 => (hpSettle 200 d1).bind hpCloseIdle
   | 'I' => hpCloseIdle d
